@@ -49,7 +49,11 @@ TRUSTED = [
     "modelled, not verified: arrays as total functions on Z*Z; determinism of NumPy/SciPy (two runs on equal data give "
     "equal bits); regional_maximum's loop summary: the structure is an abstract offset set",
 ]
-ASSUMPTIONS = ["image and mask have the same 2-d shape; mask is boolean; the smoothing function handed to "
+ASSUMPTIONS = ["the Coq programs of listed_progs read the mask as a BOOLEAN array (x[mask] = boolean-mask indexing, ~mask = "
+               "logical complement); integer 0/1 masks are covered by the two-run oracle and, for the functions that "
+               "handle them, by intmask_handled_progs (integer-mask interpretation); the 23 functions that do not are "
+               "known finding F24",
+               "image and mask have the same 2-d shape; the smoothing function handed to "
                "smooth_with_function_and_mask is pure"]
 EXHAUSTIVE = {"quick": False, "thorough": False}
 
@@ -124,6 +128,19 @@ def build_terms(sources):
         attempt(name, lambda fn=fn, builder=builder: (pins_ok(fn), builder(M))[1], extra)
     for name, fn in Hd.PARAM.items():
         attempt(name, lambda fn=fn: G.translate(M, fn, struct_id=Hd.SSYM), param)
+    # the same functions under the INTEGER-MASK interpretation (mask = integer array with values 0 / non-zero): an
+    # obligation for the functions that handle such masks, documentation of F24 for the others
+    emit.intmask = {}
+    for n in LISTED:
+        store = {}
+        before = len(errors)
+        attempt(n, lambda n=n: G.translate(M, n, callables=("function",) if n == "smooth_with_function_and_mask" else (),
+                                          int_mask=True), store)
+        emit.intmask[n] = store[n]
+        if n in F24_FUNCS:
+            del errors[before:]                      # no obligation there
+        else:
+            errors[before:] = [e + " (integer-mask interpretation)" for e in errors[before:]]
     emit.not_claimed = {}
     for n, why in NOT_CLAIMED.items():
         try:
@@ -185,6 +202,22 @@ def emit(terms, rejected, extra=None):
             out.append("Definition %s : nat := %d." % (ident, i))
     out.append("")
     out.extend(body)
+    im = getattr(emit, "intmask", {})
+    if im:
+        out.append("")
+        out.append("(* ---- the INTEGER-MASK interpretation: the mask argument is an integer array with values 0 / non-zero, so that")
+        out.append("   x[mask] is integer fancy indexing and ~mask a bitwise complement unless the code looks at truthiness.  The")
+        out.append("   functions that handle such masks must be accepted under this reading too; the others are finding F24. *)")
+        for name in LISTED:
+            out.append("Definition prog_%s_intmask : prog :=\n  %s." % (name, em.prog(im[name])))
+        handled = [n for n in LISTED if n not in F24_FUNCS]
+        out.append("Definition intmask_handled_progs : list prog :=\n  [%s]." % "; ".join("prog_%s_intmask" % n for n in handled))
+        out.append("Lemma intmask_handled_accepted : forallb accepts intmask_handled_progs = true.\nProof. vm_compute. reflexivity. Qed.")
+        out.append("(* F24 (known finding), statically: verdicts of the checker on %s - computed, not an obligation *)"
+                   % ", ".join(n for n in LISTED if n in F24_FUNCS))
+        out.append("Definition f24_intmask_progs : list prog :=\n  [%s]." % "; ".join(
+            "prog_%s_intmask" % n for n in LISTED if n in F24_FUNCS))
+        out.append("Definition f24_static_verdicts : list bool := Eval vm_compute in map accepts f24_intmask_progs.")
     for name, why in getattr(emit, "not_claimed", {}).items():
         out.append("(* NOT CLAIMED  %s  (%s): %s *)" % (name, why[0], why[1].replace("(*", "( *").replace("*)", "* )")))
     out.append("Definition listed_progs : list prog :=\n  [%s]." % "; ".join("prog_" + n for n in LISTED))
@@ -395,6 +428,16 @@ MASK_ANY_DTYPE = {"median_filter", "circular_average_filter", "sobel", "hsobel",
                   "vprewitt", "roberts"}
 
 
+# the integer-mask stream: 0/1 masks of integer dtype for EVERY listed function (and, as a separately counted class,
+# masks whose truthy value is 2 or 255); mask_true only matters for the non-bool dtypes
+MASK_DTYPES = ["bool"] * 7 + ["uint8", "int64", "int32"]
+# known finding F24: these index with `image[mask]` / `x[~mask]` without casting the mask to bool, so an integer 0/1 mask
+# becomes fancy row indexing / ~mask becomes -1, -2 (or 254, 255)
+F24_FUNCS = {"smooth_with_function_and_mask", "canny", "stretch", "circular_hough", "laplacian_of_gaussian",
+             "variance_transform", "convex_hull_transform", "bridge", "clean", "diag", "endpoints", "branchpoints", "fill",
+             "fill4", "hbreak", "vbreak", "majority", "remove", "spur", "thicken", "thin", "skeletonize", "branchings"}
+
+
 def _image(rng, kind, dtype, H, W):
     dt = np.dtype(dtype)
     if kind == "bool":
@@ -458,7 +501,7 @@ def make_case(rng, fn, vi):
         alts.append({"kind": a, "vals": v})
     return {"fn": fn, "variant": vi, "tag": tag, "kind": kind, "mask_class": cls, "img": img.tolist(),
             "mask": m.astype(int).tolist(), "alts": alts, "dtype": dtype,
-            "mask_dtype": str(rng.choice(["bool", "bool", "uint8", "int64"])) if fn in MASK_ANY_DTYPE else "bool",
+            "mask_dtype": str(rng.choice(MASK_DTYPES)), "mask_true": int(rng.choice([1] * 8 + [2, 255])),
             "layout": str(rng.choice(LAYOUTS)), "mask_layout": str(rng.choice(LAYOUTS))}
 
 
@@ -581,6 +624,7 @@ def generate(ctx):
             ctx.count("layout:" + c["layout"] + "/" + c["mask_layout"])
             if c["mask_dtype"] != "bool":
                 ctx.count("mask_dtype:" + c["mask_dtype"])
+                ctx.count("int_mask_truthy_value:%d" % c["mask_true"])
             hh, ww = len(c["img"]), len(c["img"][0])
             ctx.count("shape:" + ("strip" if max(hh, ww) >= 70 else "tiny" if min(hh, ww) <= 3 else "small"))
     return cases
@@ -633,10 +677,17 @@ def _mods():
     return _MODS
 
 
+def _mask_array(case, mask):
+    dt = case.get("mask_dtype", "bool")
+    if dt == "bool":
+        return mask
+    return mask.astype(dt) * np.array(case.get("mask_true", 1)).astype(dt)
+
+
 def _run(f, case, img, mask):
     try:
         a = _layout(img, case.get("layout", "C"))
-        k = _layout(mask.astype(case.get("mask_dtype", "bool")), case.get("mask_layout", "C"))
+        k = _layout(_mask_array(case, mask), case.get("mask_layout", "C"))
         return {"out": canon(f(_mods(), a, k))}
     except Exception as e:                                     # noqa
         return {"exc": type(e).__name__, "msg": str(e)[:200]}
@@ -651,12 +702,7 @@ def _variant(case):
     return vs[case["variant"]]
 
 
-def impl(case):
-    if case.get("fn") == "__ref__":
-        return _ref_impl(case)
-    f = _variant(case)[2]
-    mask = np.array(case["mask"], dtype=int).astype(bool)
-    img = _arr(case, case["img"])
+def _runs(case, f, img, mask):
     base = _run(f, case, img, mask)
     res = {"base": base, "alts": [], "inputs": []}
     for a in case["alts"]:
@@ -666,6 +712,19 @@ def impl(case):
         res["inputs"].append(canon(img2)[0])
     res["input0"] = canon(img)[0]
     res["base_again"] = _run(f, case, img, mask)               # same call after the others: no state kept between calls
+    return res
+
+
+def impl(case):
+    if case.get("fn") == "__ref__":
+        return _ref_impl(case)
+    f = _variant(case)[2]
+    mask = np.array(case["mask"], dtype=int).astype(bool)
+    img = _arr(case, case["img"])
+    res = _runs(case, f, img, mask)
+    if case.get("mask_dtype", "bool") != "bool":
+        # control for the attribution of F24: the very same calls with mask.astype(bool)
+        res["control"] = _runs(dict(case, mask_dtype="bool"), f, img, mask)
     return res
 
 
@@ -720,6 +779,26 @@ def check(ctx, cases, outs):
                 res[k] = "%s[%s]: output OUTSIDE the mask differs from the input (run %s; Spec.MaskCheck.agree_out false)" % (
                     cases[k]["fn"], cases[k]["tag"], kind)
     return res
+
+
+def attribute(ctx, case, out, clause):
+    """F24 (known): a two-run leak / unrestored outside pixel / exception with a mask of NON-BOOL INTEGER dtype, in a function
+    of F24_FUNCS, when the very same calls with mask.astype(bool) pass the check.  Anything else stays a violation."""
+    if case.get("fn") not in F24_FUNCS or case.get("mask_dtype", "bool") == "bool":
+        return None
+    if not isinstance(out, dict) or "control" not in out:
+        return None
+    c2 = dict(case, mask_dtype="bool")
+    if check(ctx, [c2], [out["control"]])[0] is not None:
+        return None                                   # it also fails with a boolean mask: not F24
+    return "F24"
+
+
+def reproduce_finding(ctx, finding):
+    case = finding["witness"]
+    o = ctx.run_impl([case])[0]
+    v = check(ctx, [case], [o])[0]
+    return bool(v) and attribute(ctx, case, o, v) == finding["id"]
 
 
 def nontrivial(case, out):
@@ -833,7 +912,12 @@ MANIFEST = {
         "Trusted: Coq kernel + vm_compute; the symbolic evaluator, its NumPy identities and the one loop summary; the "
         "locality table of NumPy/SciPy symbols (the theorems quantify over all interpretations satisfying it; for "
         "correlate/convolve and erosion/dilation it is additionally tied to reference models checked against SciPy); "
-        "extraction (ExtrOcamlBasic only). The tie between programs and code is by translation, not a proof about Python."),
+        "extraction (ExtrOcamlBasic only). The tie between programs and code is by translation, not a proof about Python. "
+        "Known finding F24: with 0/1 masks of integer dtype 23 of the listed functions index with the mask without casting "
+        "it to bool and leak / do not restore / raise; such failures are attributed (function in the list, non-bool integer "
+        "mask, the same calls with mask.astype(bool) pass) and reported as KNOWN-FINDING, everything else is a violation; the "
+        "main theorems read the mask as a boolean array, C12_integer_masks_handled covers the other 19 functions under the "
+        "integer-mask reading."),
     "technique": "Coq proof of a dataflow checker + per-run AST translation of the source + two-run differential oracle",
     "design_ref": "DESIGN.md section 7, C12",
 }
